@@ -16,7 +16,7 @@
    the flag is False.  The model follows the code. *)
 From Coq Require Import ZArith QArith Reals Lra List Bool Permutation.
 From ACN Require Import Base.Num Base.NumR Gen.Analysis_R Model.Ledger Model.LedgerR Model.LedgerQ Model.Analysis Model.AnalysisR
-                        Model.AnalysisQ Proofs.Ledger Proofs.Analysis.
+                        Model.AnalysisQ Proofs.Ledger Proofs.AnalysisStruct Proofs.Analysis.
 Import ListNotations.
 Open Scope R_scope.
 
@@ -77,12 +77,26 @@ Theorem C18_phase_aware_sum : forall (tr : traj (F:=R)) j t,
 Proof. exact (fun tr j t => conj eq_refl eq_refl). Qed.
 Print Assumptions C18_phase_aware_sum.
 
-(* the result depends on the requested ids only as a set (no assumption at all) *)
-Theorem C18_request_order_irrelevant : forall (tr : traj (F:=R)) flag ids ids',
+(* For ANY numeric carrier (reals, exact rationals, ...): the result depends on the requested ids only as a
+   set -- order and duplicates are irrelevant; no assumption at all; no axioms *)
+Theorem C18_request_order_irrelevant : forall F (O : fops F) (A : akern F) (tr : traj (F:=F)) flag ids ids',
   (forall c, In c ids <-> In c ids') ->
-  constraint_currents RO RA tr flag (Some ids) = constraint_currents RO RA tr flag (Some ids').
-Proof. exact constraint_currents_order_irrelevant. Qed.
+  constraint_currents O A tr flag (Some ids) = constraint_currents O A tr flag (Some ids').
+Proof. exact (fun F O A => constraint_currents_order_irrelevant O A). Qed.
 Print Assumptions C18_request_order_irrelevant.
+
+(* For ANY numeric carrier: the returned keys are the requested existing constraints (once, network order), each
+   is mapped to the series the code computes from ITS OWN row of the constraint matrix, nothing else is returned.
+   (C18_constraint_currents above adds: over R that series is the phase-aware sum.)  No axioms. *)
+Theorem C18_constraint_currents_names : forall F (O : fops F) (A : akern F) (tr : traj (F:=F)) flag ids,
+  length (t_cmat tr) = length (t_cindex tr) -> NoDup (t_cindex tr) ->
+  map fst (constraint_currents O A tr flag ids) = filter (requested ids) (t_cindex tr)
+  /\ (forall j c, nth_error (t_cindex tr) j = Some c -> requested ids c = true ->
+        dict_get c (constraint_currents O A tr flag ids) = Some (series_row O A tr flag (nth j (t_cmat tr) [])))
+  /\ (forall c, requested ids c = false \/ ~ In c (t_cindex tr) ->
+        dict_get c (constraint_currents O A tr flag ids) = None).
+Proof. exact (fun F O A => constraint_currents_structure O A). Qed.
+Print Assumptions C18_constraint_currents_names.
 
 (* energy totals and proportions follow from the sessions' requested and delivered energy *)
 Theorem C18_energy_metrics : forall (tr : traj (F:=R)) threshold,
